@@ -1156,6 +1156,93 @@ def quantifier(ctx, key, paths=None):
     return None
 
 
+class PathWith:
+    """a path extended by assumed conditions (facts that hold on it although the code does not branch on them there: e.g. the predicate of a
+    successful `find`, the value of a returned boolean expression)"""
+
+    class _C:
+        kind = "cond"
+
+        def __init__(self, term, fact, bb):
+            self.term, self.fact, self.bb = term, fact, bb
+            self.data = {}
+
+    def __init__(self, p, extra):
+        self.p = p
+        self.extra = [PathWith._C(t, f, (p.blocks[-1] if getattr(p, "blocks", None) else 0)) for t, f in extra]
+        self.end, self.env, self.events, self.blocks, self.facts = p.end, p.env, p.events, getattr(p, "blocks", []), getattr(p, "facts", {})
+
+    def conds(self):
+        return list(self.p.conds()) + self.extra
+
+    def calls(self, *names):
+        return self.p.calls(*names)
+
+
+def first_match(ctx, key, paths=None):
+    """Normal form of `work on the FIRST element of a collection that satisfies a test, or do something else if there is none`:
+         for x in coll { if !test(x) { continue }  ..work(x), leaves the loop.. }  fallback        (loop form)
+         match coll.iter().find(|x| test(x)) { Some(x) => work(x), None => fallback }              (find form, also let-else / if-let)
+       dict(form, coll, elem=<term of the element>, found=[returning paths on which an element passed, carrying the test as a condition],
+            exhausted=[returning paths on which no element passed])   or None."""
+    paths = paths if paths is not None else ctx.paths(key)
+    body = ctx.body(key)
+    if not paths or body is None:
+        return None
+    rets = ret_paths(paths)
+    # find form
+    finds = {}
+    for p in rets:
+        for c in p.conds():
+            if c.term[0] == "discr" and is_call(strip_refs(c.term[1]), "Iterator>::find") and len(call_args(strip_refs(c.term[1]))) == 2:
+                finds.setdefault(strip_refs(c.term[1]), []).append((p, c))
+    if len(finds) == 1:
+        F, occ = next(iter(finds.items()))
+        clo = strip_refs(call_args(F)[1])
+        payload = ("field", ("downcast", F, "Some"), 0, "0")
+        pe = mir.PathEval(ctx.fx, body, inline=ctx.inline_set, desugar=True)
+        alts = [(fs, v) for (_, fs, v) in pe._apply(clo, (("ref", payload),), 0) if v is not None]
+        if len(alts) == 1 and not alts[0][0]:
+            test = alts[0][1]
+            neg = False
+            while isinstance(test, tuple) and test and test[0] == "unop" and test[1] == "Not":
+                test, neg = test[2], not neg
+            found, exhausted = [], []
+            for p in rets:
+                f = [c.fact for c in p.conds() if c.term == ("discr", F) or (c.term[0] == "discr" and strip_refs(c.term[1]) == F)]
+                if not f:
+                    continue
+                if f[-1] == ("eq", 1):
+                    found.append(PathWith(p, [(test, ("eq", not neg))]))
+                else:
+                    exhausted.append(p)
+            return dict(form="find", coll=_iter_source(call_args(F)[0]), elem=payload, found=found, exhausted=exhausted)
+    # loop form
+    for h in sorted(body.loops):
+        drv = [c for p in paths for c in p.conds() if c.term[0] == "discr" and is_call(strip_refs(c.term[1]), "::next") and strip_refs(c.term[1])[4] == h]
+        if not drv:
+            continue
+        nx = strip_refs(drv[0].term[1])
+        found = [p for p in rets if any(c.term == drv[0].term and c.fact == ("eq", 1) for c in p.conds())]
+        exhausted = [p for p in rets if any(c.term == drv[0].term and c.fact == ("eq", 0) for c in p.conds()) and p not in found]
+        backs = [p for p in paths if p.end[0] == "back" and p.end[1] == h]
+        if not found or not exhausted or not backs:
+            continue
+        # one test decides between `continue` and the work: every back edge took it one way, every found path the other way
+        def body_conds(p):
+            cs = p.conds()
+            i = max(j for j, c in enumerate(cs) if c.term == drv[0].term)
+            return cs[i + 1:]
+        tb = {(bc[0].term, bc[0].fact) for p in backs for bc in [body_conds(p)] if bc}
+        if len(tb) != 1 or any(len(body_conds(p)) != 1 for p in backs):
+            continue
+        (tt, tf) = next(iter(tb))
+        if not all(body_conds(p) and body_conds(p)[0].term == tt and body_conds(p)[0].fact != tf for p in found):
+            continue
+        return dict(form="loop", coll=_iter_source(call_args(nx)[0]), elem=("field", ("downcast", nx, "Some"), 0, "0"), found=found, exhausted=exhausted)
+    return None
+
+
 def element_test(ctx, key, paths=None):
     """Like quantifier(), for a per-element test that branches (e.g. `compile the candidate; if that worked, match it`): the normal form is
          dict(kind='any'|'all', coll=<collection term>, form='loop'|'combinator', elem=<term of the element>, before=[conditions before the quantifier],
